@@ -22,6 +22,7 @@ package asyncbufio
 
 // mark[j] = offset at which accepted item j starts; mark[items] = n (end of the last item).
 //@ pred WInv(aw *Writer) := aw.items >= 0 && aw.n >= 0 && aw.mark[aw.items] == aw.n
+//@     && (forall a int, b int :: {aw.mark[a], aw.mark[b]} 0 <= a && a <= b && b <= aw.items ==> aw.mark[a] <= aw.mark[b])
 
 // The caller must hand over a buffer it allocated itself and will not touch again: the slice
 // (not a copy) sits in the queue until the consumer goroutine writes it out.
